@@ -815,6 +815,38 @@ struct H {
         if (got != want) {
             ctx.deviation(classify("math-tag-text"), "{math:} rendered '" + got + "' expected '" + want + "'");
         }
+        // the same expression inside a loop, its variables reached through the loop's value ({var:L[name]}), bare and wrapped as a
+        // whole in one or two pairs of parentheses: same text as at the top level (or the tag's own source when there is no value)
+        if (text.size() < 1500) {
+            std::string inner = text;
+            for (size_t pos = 0; (pos = inner.find("{var:", pos)) != std::string::npos;) {
+                size_t end = inner.find('}', pos);
+                if (end == std::string::npos) {
+                    break;
+                }
+                inner = inner.substr(0, pos) + "{var:L[" + inner.substr(pos + 5, end - pos - 5) + "]}" + inner.substr(end + 1);
+                pos += 8;
+            }
+            Value<Char_T> lv;
+            build_value(lv);
+            Value<Char_T> holder;
+            build_value(holder);
+            holder[wstr<Char_T>("wrap")] += Memory::Move(lv);
+            for (const char *form : {"%s", "(%s)", "((%s))"}) {
+                std::string ex = form;
+                ex.replace(ex.find("%s"), 2, inner);
+                const std::string lt = "<loop set=\"wrap\" value=\"L\">{math:" + ex + "}</loop>";
+                jm::Units            lu(lt.begin(), lt.end());
+                jm::Buf<Char_T>      lb(lu);
+                StringStream<Char_T> lout;
+                Template::Render(lb.cp(), SizeT(lb.n), holder, lout);
+                const std::string lg = narrow(lout);
+                const std::string lw = ok ? want : "{math:" + ex + "}";
+                if (lg != lw) {
+                    ctx.deviation(classify("math-in-loop-text"), "inside a loop '" + lt + "' rendered '" + lg + "' expected '" + lw + "'");
+                }
+            }
+        }
         // as a condition: satisfied exactly when the value is greater than zero
         std::string itpl = "{if case=\"" + text + "\" true=\"T\" false=\"F\"}";
         if (text.find('"') == std::string::npos) {
